@@ -38,6 +38,7 @@ KEYS = ['none', 'orig', 'alnum', 'canon', 'rand']
 def cases(ctx):
     q = ctx.tier == 'quick'
     n = 700 if q else 12000
+    ctx.new_phase()
     for i in range(n):
         if not ctx.time_left():
             break
